@@ -24,7 +24,9 @@ def main():
             checks = sys.argv[i + 1].split(",")
         if a == "--tier":
             tier = sys.argv[i + 1]
-    wt = f"/tmp/mut/{prop}"
+    root = os.environ.get("MUTDIR", "/tmp/mut")
+    tag = os.environ.get("MUTTAG", "")
+    wt = f"{root}/{prop}"
     out = f"{wt}/_out"
     diff = f"{out}/m{n}.diff"
     demo = f"{out}/m{n}_demo_test.go"
@@ -53,7 +55,7 @@ def main():
     meta["confirmed"]["demo_passes_without_change"] = (rc == 0)
     os.remove(dst)
     ok = all(meta["confirmed"].values())
-    print(f"{prop} m{n}: confirmation {meta['confirmed']}")
+    print(f"{prop} {tag}m{n}: confirmation {meta['confirmed']}")
     # --- our checks against /repo with the change
     rc, o = sh("git status --porcelain", "/repo")
     if o.strip():
@@ -72,7 +74,7 @@ def main():
             print(f"  check {c} ({tier}): exit={rc} violations={len(viol)} {cex[:1]} {inc[:1]} {time.time()-t0:.0f}s")
     finally:
         sh("git checkout -- .", "/repo")
-    sd = f"/verif/seeded/{prop}-m{n}"
+    sd = f"/verif/seeded/{prop}-{tag}m{n}"
     os.makedirs(sd, exist_ok=True)
     shutil.copy(diff, f"{sd}/patch.diff")
     shutil.copy(demo, f"{sd}/demo_test.go")
